@@ -35,11 +35,12 @@ const (
 	TMyInt
 	TMyStr
 	TFunc
+	TFloatArr
 )
 
 var tyNames = map[Ty]string{TNone: "-", TBool: "Bool", TInt: "Int", TFloat: "Float", TStr: "Str", TIntArr: "IntArr",
 	TStrArr: "StrArr", TAnyArr: "AnyArr", TObjArr: "ObjArr", TMap: "Map", TAnyMap: "AnyMap", TObj: "Obj", TNil: "Nil", TAny: "Any",
-	TI8: "I8", TU8: "U8", TI64: "I64", TF32: "F32", TU: "U", TMyInt: "MyInt", TMyStr: "MyStr", TFunc: "Func"}
+	TI8: "I8", TU8: "U8", TI64: "I64", TF32: "F32", TU: "U", TMyInt: "MyInt", TMyStr: "MyStr", TFunc: "Func", TFloatArr: "FloatArr"}
 
 func (t Ty) String() string { return tyNames[t] }
 
@@ -54,6 +55,8 @@ func Elem(t Ty) Ty {
 		return TAny
 	case TObjArr:
 		return TObj
+	case TFloatArr:
+		return TFloat
 	}
 	return TNone
 }
